@@ -3,6 +3,84 @@ import Rbgp.Rpki.Spec
 namespace Rbgp.C12
 open Rbgp Rbgp.Term Rbgp.Rpki Rbgp.Rpki.Codec
 
+/-! evidence only: which input classes a case exercises (boundary buckets) -/
+
+def lenClass (n : Net) : String :=
+  let w := 8 * n.fam.nbytes
+  let f := if n.fam = .v4 then "4" else "6"
+  if n.len = 0 then s!"len{f}-0"
+  else if n.len = w then s!"len{f}-max"
+  else if n.len + 1 = w then s!"len{f}-max-1"
+  else if n.len > w then s!"len{f}-over-max"
+  else if n.len % 8 = 0 then s!"len{f}-byte-boundary"
+  else if n.len % 8 = 1 then s!"len{f}-boundary+1"
+  else if n.len % 8 = 7 then s!"len{f}-boundary-1"
+  else s!"len{f}-other"
+
+def asnClass (a localAsn : Nat) : String :=
+  if a = 0 then "0" else if a = 1 then "1" else if a = 4294967295 then "max" else if a = 4294967294 then "max-1"
+  else if a = localAsn then "local" else "other"
+
+def tailClass : Option (List Seg) → String
+  | none => "path-absent"
+  | some [] => "path-empty"
+  | some segs =>
+      match segs.getLast? with
+      | some (t, asns) =>
+          (if asns.isEmpty then "tail-empty-segment"
+           else if t = 1 then "tail-as-set" else if t = 2 then "tail-as-sequence"
+           else if t = 3 then "tail-confed-sequence" else if t = 4 then "tail-confed-set" else "tail-bad-type")
+      | none => "path-empty"
+
+def segLenClass : Option (List Seg) → List String
+  | some segs => if segs.any (fun s => s.2.length = 255) then ["segment-255-as"] else []
+  | none => []
+
+/-- relation of the route to the VRPs of the set: how many cover it, and how max-length sits -/
+def relClass (s : List Spec.Vrp) (r : Net) : List String :=
+  let cov := s.filter (fun v => Spec.covers v r)
+  (if cov.isEmpty then ["route-uncovered"] else if cov.length = 1 then ["route-covered-once"] else ["route-covered-many"]) ++
+  (if cov.any (fun v => v.maxlen + 1 = r.len) then ["maxlen-one-below-route"] else []) ++
+  (if cov.any (fun v => v.maxlen = r.len) then ["maxlen-equals-route"] else []) ++
+  (if cov.any (fun v => v.maxlen = r.len + 1) then ["maxlen-one-above-route"] else []) ++
+  (if cov.any (fun v => v.len = r.len) then ["vrp-prefix-equals-route"] else []) ++
+  (if cov.any (fun v => v.asn = 0) then ["covered-by-as0-vrp"] else []) ++
+  (if s.any (fun v => v.fam = r.fam && v.len = r.len + 1 && !Spec.covers v r) then ["more-specific-by-one-present"] else [])
+
+def opStat (la ga : Nat) (s : List Spec.Vrp) : Op → List String
+  | .ins c n ml a =>
+      let v := Spec.vrpOf c n ml a
+      ["vrp-" ++ lenClass n, "vrp-as-" ++ asnClass a la,
+       if ml < n.len then "vrp-maxlen-below-len" else if ml = n.len then "vrp-maxlen-eq-len" else if ml = 255 then "vrp-maxlen-255" else "vrp-maxlen-above-len"] ++
+      (if s.contains v then ["ins-duplicate"] else []) ++
+      (if s.any (fun x => x ≠ v && { x with cache := c } = v) then ["ins-same-vrp-other-cache"] else []) ++
+      (if s.any (fun x => x.cache = c && x.fam = v.fam && x.len = v.len && x.bits = v.bits && x ≠ v) then ["ins-second-vrp-same-prefix-same-cache"] else [])
+  | .rem c n ml a =>
+      let v := Spec.vrpOf c n ml a
+      if !s.contains v then ["rem-absent"]
+      else if s.any (fun x => x ≠ v && x.fam = v.fam && x.len = v.len && x.bits = v.bits) then ["rem-one-of-several"] else ["rem-last-of-prefix"]
+  | .drop c =>
+      let mine := s.filter (fun x => x.cache = c)
+      (if mine.isEmpty then ["drop-nothing"] else ["drop-some"]) ++
+      (if mine.any (fun x => mine.any (fun y => x ≠ y && x.fam = y.fam && x.len = y.len && x.bits = y.bits)) then ["drop-several-under-one-prefix"] else [])
+  | .reset _ vs => [if vs.isEmpty then "reset-empty" else "reset-nonempty"]
+  | .val r p => ["val-" ++ lenClass r, tailClass p, "state-" ++ (match Spec.rfc6811 s (Spec.originRfc la p) r with
+                  | .valid => "valid" | .invalid => "invalid" | .notFound => "notfound")] ++ segLenClass p ++ relClass s r ++
+                (if (Spec.famOf s r.fam).isEmpty then ["val-on-empty-family"] else [])
+  | .iter _ => ["iter"]
+  | .display loc st r p =>
+      [if loc then "show-local-route" else "show-peer-route", tailClass p,
+       "origin-as-" ++ asnClass (if loc then ga else la) 0,
+       if Spec.rfc6811 s (Spec.originRfc (if loc then ga else la) p) r = st then "policy-state-matches" else "policy-state-differs"] ++
+      (if loc ∧ ga ≠ la then ["global-as-differs-from-session-as"] else []) ++ relClass s r
+
+def statsFrom (la ga : Nat) : List Spec.Vrp → List Op → List String
+  | _, [] => []
+  | s, op :: ops => opStat la ga s op ++ statsFrom la ga (Spec.sStep s op) ops
+
+def dedup (l : List String) : List String :=
+  l.foldl (fun acc k => if acc.contains k then acc else acc ++ [k]) []
+
 def verdictStr : Spec.Verdict → String
   | .ok => "ok"
   | .fail i c => s!"fail step={i} clause={c}"
@@ -27,6 +105,14 @@ def handler (mode : String) (line : String) : String :=
               -- an ill-formed case must be rejected by the harness as well
               if toStr o == "(bad-case)" then "ok" else "fail step=0 clause=ill-formed-case-accepted"
       | _ => "(bad-line)"
+  | "stats" =>
+      -- one token per input class the case exercises (counted per case)
+      match parseMany line with
+      | some [c, _] =>
+          match caseOf? c with
+          | some c => " ".intercalate ((dedup (statsFrom c.localAsn c.globalAsn [] c.ops)).map (· ++ "=1"))
+          | none => "ill-formed-case=1"
+      | _ => "other=1"
   | _ => "(bad-mode)"
 
 end Rbgp.C12
